@@ -47,11 +47,11 @@ func closableFieldType(t types.Type) (elem bool, ok bool) {
 
 // named exceptions for OWNER-fields: owner type . field → reason
 var ownerFieldExempt = map[string]string{
-	"recordio.FileWriter.bufWriter":         "the buffered writer is flushed and the underlying *os.File is closed directly; closing both would close the descriptor twice",
-	"recordio.FileReader.reader":            "wraps FileReader.file, which is closed directly",
-	"simpledb.DB.sstableManager":            "the manager has no Close; its merged reader is closed by DB.Close through currentSSTable().Close()",
-	"sstables.SSTableStreamWriter.opts":     "options, not a resource",
-	"sstables.SSTableIterator.reader":       "the iterator borrows the reader, it does not own it",
+	"recordio.FileWriter.bufWriter":          "the buffered writer is flushed and the underlying *os.File is closed directly; closing both would close the descriptor twice",
+	"recordio.FileReader.reader":             "wraps FileReader.file, which is closed directly",
+	"simpledb.DB.sstableManager":             "the manager has no Close; its merged reader is closed by DB.Close through currentSSTable().Close()",
+	"sstables.SSTableStreamWriter.opts":      "options, not a resource",
+	"sstables.SSTableIterator.reader":        "the iterator borrows the reader, it does not own it",
 	"wal/proto.WriteAheadLog.WriteAheadLogI": "embedded interface: Close delegates through the embedded value",
 }
 
@@ -867,4 +867,3 @@ func ruleOwnerOverwrite(r *Report) {
 		})
 	}
 }
-
